@@ -6,6 +6,7 @@ use verifkit::Ctx;
 pub use cglue::*;
 
 
+pub mod abi;
 pub mod boxes;
 pub mod c0607;
 pub mod c10;
